@@ -1,6 +1,7 @@
 package main
 
 import (
+	"bytes"
 	"encoding/json"
 	"fmt"
 	"reflect"
@@ -171,6 +172,14 @@ func c20Helpers() []helper {
 		{"CleanRecipients", func(it ap.Item, _ *cbProbe) string { return fmt.Sprint(ap.IsNil(ap.CleanRecipients(it))) }},
 		{"DerefItem", func(it ap.Item, _ *cbProbe) string { return fmt.Sprint(len(ap.DerefItem(it))) }},
 		{"ItemOrderTimestamp(x,x)", func(it ap.Item, _ *cbProbe) string { return fmt.Sprint(ap.ItemOrderTimestamp(it, it)) }},
+		{"ItemOrderTimestamp(nil,x)", func(it ap.Item, _ *cbProbe) string { return fmt.Sprint(ap.ItemOrderTimestamp(nil, it)) }},
+		{"ItemOrderTimestamp(x,nil)", func(it ap.Item, _ *cbProbe) string { return fmt.Sprint(ap.ItemOrderTimestamp(it, nil)) }},
+		{"ItemOrderTimestamp(typed nil,x)", func(it ap.Item, _ *cbProbe) string {
+			return fmt.Sprint(ap.ItemOrderTimestamp((*ap.Activity)(nil), it))
+		}},
+		{"ItemOrderTimestamp(x,typed nil)", func(it ap.Item, _ *cbProbe) string {
+			return fmt.Sprint(ap.ItemOrderTimestamp(it, (*ap.Activity)(nil)))
+		}},
 		{"ItemOrderTimestamp(x,obj)", func(it ap.Item, _ *cbProbe) string {
 			ap.ItemOrderTimestamp(it, &ap.Object{ID: "https://example.com/o"})
 			return "ok"
@@ -330,36 +339,62 @@ func c20HandContexts() []context {
 }
 
 type ctxOp struct {
-	name string
-	run  func(v ap.Item)
+	name  string
+	run   func(v ap.Item)
+	judge func(v ap.Item) string // optional: what the operation must still deliver for the value that holds the nil
 }
 
 func c20CtxOps() []ctxOp {
 	return []ctxOp{
-		{"MarshalJSON", func(v ap.Item) { _, _ = ap.MarshalJSON(v) }},
-		{"GobEncode", func(v ap.Item) { _, _ = ap.GobEncode(v) }},
-		{"ItemsEqual(v,v)", func(v ap.Item) { ap.ItemsEqual(v, v) }},
-		{"FlattenProperties", func(v ap.Item) { ap.FlattenProperties(v) }},
-		{"Flatten", func(v ap.Item) { ap.Flatten(v) }},
+		// the encoders ignore the nil or report an error; the value that holds it does not vanish
+		{"MarshalJSON", func(v ap.Item) { _, _ = ap.MarshalJSON(v) }, func(v ap.Item) string {
+			if ap.IsNil(v) || len(v.GetLink()) == 0 {
+				return ""
+			}
+			id := []byte(v.GetLink())
+			if b, err := ap.MarshalJSON(v); err == nil && !bytes.Contains(b, id) {
+				return fmt.Sprintf("MarshalJSON returned %q and no error: the value holding the nil (id %s) is gone", b, id)
+			}
+			if m, ok := v.(json.Marshaler); ok {
+				if b, err := m.MarshalJSON(); err == nil && !bytes.Contains(b, id) {
+					return fmt.Sprintf("%T.MarshalJSON returned %q and no error: the value holding the nil (id %s) is gone", v, b, id)
+				}
+			}
+			outer := &ap.Activity{ID: "https://example.com/outer", Type: ap.CreateType, Object: v}
+			if b, err := ap.MarshalJSON(outer); err == nil && !bytes.Contains(b, id) {
+				return fmt.Sprintf("as the object of an activity, MarshalJSON returned %q and no error: the value holding the nil (id %s) is gone", b, id)
+			}
+			return ""
+		}},
+		{"GobEncode", func(v ap.Item) { _, _ = ap.GobEncode(v) }, func(v ap.Item) string {
+			b, err := ap.GobEncode(v)
+			if err == nil && !ap.IsNil(v) && len(v.GetLink()) > 0 && !bytes.Contains(b, []byte(v.GetLink())) {
+				return fmt.Sprintf("GobEncode returned %d bytes and no error: the value holding the nil (id %s) is gone", len(b), v.GetLink())
+			}
+			return ""
+		}},
+		{"ItemsEqual(v,v)", func(v ap.Item) { ap.ItemsEqual(v, v) }, nil},
+		{"FlattenProperties", func(v ap.Item) { ap.FlattenProperties(v) }, nil},
+		{"Flatten", func(v ap.Item) { ap.Flatten(v) }, nil},
 		{"Recipients", func(v ap.Item) {
 			if r, ok := v.(ap.HasRecipients); ok {
 				r.Recipients()
 			}
-		}},
-		{"Clean", func(v ap.Item) { ap.CleanRecipients(v) }},
-		{"DerefItem", func(v ap.Item) { ap.DerefItem(v) }},
-		{"NotEmpty", func(v ap.Item) { ap.NotEmpty(v) }},
-		{"OnObject", func(v ap.Item) { _ = ap.OnObject(v, func(o *ap.Object) error { return nil }) }},
-		{"OnItem", func(v ap.Item) { _ = ap.OnItem(v, func(i ap.Item) error { return nil }) }},
-		{"fmt", func(v ap.Item) { _ = fmt.Sprintf("%v", v) }},
-		{"ToIRIs", func(v ap.Item) { _, _ = ap.ToIRIs(v) }},
-		{"OnIRIs", func(v ap.Item) { _ = ap.OnIRIs(v, func(i *ap.IRIs) error { return nil }) }},
+		}, nil},
+		{"Clean", func(v ap.Item) { ap.CleanRecipients(v) }, nil},
+		{"DerefItem", func(v ap.Item) { ap.DerefItem(v) }, nil},
+		{"NotEmpty", func(v ap.Item) { ap.NotEmpty(v) }, nil},
+		{"OnObject", func(v ap.Item) { _ = ap.OnObject(v, func(o *ap.Object) error { return nil }) }, nil},
+		{"OnItem", func(v ap.Item) { _ = ap.OnItem(v, func(i ap.Item) error { return nil }) }, nil},
+		{"fmt", func(v ap.Item) { _ = fmt.Sprintf("%v", v) }, nil},
+		{"ToIRIs", func(v ap.Item) { _, _ = ap.ToIRIs(v) }, nil},
+		{"OnIRIs", func(v ap.Item) { _ = ap.OnIRIs(v, func(i *ap.IRIs) error { return nil }) }, nil},
 		{"CopyItemProperties(v,v')", func(v ap.Item) {
 			if o, ok := v.(*ap.Object); ok {
 				cp := *o
 				_, _ = ap.CopyItemProperties(&cp, v)
 			}
-		}},
+		}, nil},
 	}
 }
 
@@ -368,6 +403,8 @@ func c20Neutral(h string) string {
 	switch h {
 	case "IsNil":
 		return "true"
+	case "ItemOrderTimestamp(x,x)", "ItemOrderTimestamp(nil,x)", "ItemOrderTimestamp(x,nil)", "ItemOrderTimestamp(typed nil,x)", "ItemOrderTimestamp(x,typed nil)":
+		return "false" // nothing is ranked before nothing
 	case "NotEmpty", "ItemsEqual(x,obj)", "ItemsEqual(obj,x)", "ItemsEqual(x,iri)", "ItemsEqual(iri,x)", "ItemCollection.Contains", "Collection.Contains", "IRIs.Contains":
 		return "false"
 	case "ItemsEqual(x,x)", "ItemsEqual(x,nil)", "ItemsEqual(nil,x)", "Flatten", "FlattenProperties", "CleanRecipients":
@@ -424,6 +461,14 @@ func c20RunCell(cell c20Cell) (outcome string, viol string) {
 			v := cx.build(n)
 			if pan, msg := guard(func() { op.run(v) }); pan {
 				return "panic", "panic: " + msg
+			}
+			if op.judge != nil {
+				var verdict string
+				if pan, msg := guard(func() { verdict = op.judge(cx.build(n)) }); pan {
+					return "panic", "panic: " + msg
+				} else if verdict != "" {
+					return "lost", verdict
+				}
 			}
 			return "ok", ""
 		}
